@@ -128,7 +128,7 @@ class SyncWorld:
             w.sched.point('handler')
             return w._effects(w.beh.connect(sid, environ))
 
-        def on_message(sid, data):
+        def on_message(sid, data='<message handler called without its payload>'):      # tolerant signature, as many applications have
             rec('message', sid, data)
             w.sched.point('handler')
             return w._effects(w.beh.message(sid, data))
@@ -442,6 +442,7 @@ class SyncWorld:
 def _ws_release_send(self, ws):
     """The peer starts reading again: writes parked by ws.stall_send complete."""
     ws.stall_send = False
+    ws.parked = 0
 
 
 class VWebSocket:
@@ -487,10 +488,15 @@ class VWebSocket:
         p = self.peer
         if self.closed_local or p.client_closed:
             raise OSError('websocket is closed')
-        if getattr(p, 'stall_send', False):
-            # back-pressure: the peer is not reading, the write blocks inside the socket until it does
+        st_ = getattr(p, 'stall_send', False)
+        if st_:
+            # back-pressure: the peer is not reading, the write blocks inside the socket until it does (True: every write;
+            # n: the next n writes)
+            if st_ is not True:
+                p.stall_send = st_ - 1
             p.stalled = getattr(p, 'stalled', 0) + 1
-            self.world.sched.block(lambda: not getattr(p, 'stall_send', False), None, 'ws.send(stalled)')
+            p.parked = getattr(p, 'parked', 0) + 1
+            self.world.sched.block(lambda: getattr(p, 'released', 0) >= p.stalled or not getattr(p, 'parked', 0), None, 'ws.send(stalled)')
         k = getattr(p, 'nsend', 0)
         p.nsend = k + 1
         fa = getattr(p, 'fail_send_at', None)
